@@ -70,6 +70,16 @@ theorem C08_bufscan_refill (mf : Nat) (s : BS) (g : Good mf s) (hn : s.sb.next =
   exact ⟨h.1, h.2.1, h.2.2.1, h.2.2.2.1, h.2.2.2.2.1, h.2.2.2.2.2.2.2.1, fun hb => (h.2.2.2.2.2.2.2.2.1 hb).1,
     fun hb => (h.2.2.2.2.2.2.2.2.2 hb).1⟩
 
+/-- **C08, the pointers the parser reads after next_token()**: at every token of every run (any chunking, any buffer size, any
+    policy) `0 ≤ text_start ≤ tvalue_start`, `tvalue_start + tvalue_length ≤ next_char ≤ buffer_limit ≤ buffer_size` — the token
+    value lies inside the scanned token text, inside the valid part of the buffer, whatever moves and doublings happened
+    while it was scanned. -/
+theorem C08_bufscan_offsets_ordered (dia : Dialect) (mf size : Nat) (pol : Policy) (chunks : List Str)
+    (hmf : 1 ≤ mf) (hsize : 2 ≤ size) (hne : ∀ c ∈ chunks, c ≠ []) :
+    ∀ r ∈ (tokenizeB dia mf size pol chunks).1,
+      r.textStart ≤ r.tvalueStart ∧ r.tvalueStart + r.tok.text.length ≤ r.next ∧ r.next ≤ r.limit ∧ r.limit ≤ r.size :=
+  tokensLoopB_ordered dia mf pol _ _ _ [] [] (init_abs mf size chunks hmf hsize hne) (fun _ h => by simp at h)
+
 -- non-vacuity -------------------------------------------------------------------------------------------------------
 -- a quoted string whose CR LF is split across two fills, then a text field closed by CR LF `;`, scanned through a 2-unit buffer
 -- (every token outgrows the buffer: doubling in the middle of tokens); the buffer-level token stream is computed and is the
